@@ -49,6 +49,20 @@ def r1_symbol_provenance(ctx, m, me) -> None:
                               f"the name `{nm_[:80]}` is mangled with node `{n_[:80]}` but is not read from that node's operation: the symbol a call / load "
                               "refers to is then not the symbol of any definition or declaration in the module", fn,
                               expected=f"_mangle_name(N, self.hugr[N].op.f_name)", found=f"_mangle_name({n_[:60]}, {nm_[:60]})", detail="name and node from the same operation")
+            # a symbol kept in a table is keyed by the node it was mangled with: names are not unique in a module
+            for x in p.effects:
+                if isinstance(x, ast.Assign) and len(x.targets) == 1 and isinstance(x.targets[0], ast.Subscript):
+                    for c, e in tfind(x.value, T("_mangle_name(E_n, E_name)")):
+                        n_, k_ = unold(e["E_n"]), unold(x.targets[0].slice)
+                        key = ("memo", n_, k_)
+                        if key in seen:
+                            continue
+                        seen.add(key)
+                        ctx.check(k_ in (n_, f"{n_}.idx"), "C12.R1", f"ModelExport.{name}: symbol table keyed by the defining node", m.path,
+                                  getattr(x, "lineno", fn.lineno),
+                                  f"the symbol mangled with node `{n_[:80]}` is filed under `{k_[:80]}`: two definitions with the same name but different "
+                                  "nodes would share one symbol, so calls to the second resolve to the first", fn,
+                                  expected=f"<table>[{n_[:60]}]", found=f"<table>[{k_[:60]}]")
     ctx.stats["C12.R1 mangle sites"] = sites
 
 
@@ -378,6 +392,64 @@ def r6_binding_table(ctx) -> None:
             ctx.check(calls[cname] == len(fields), "C12.R6", f"hugr.model.{cname}: constructor arity", mm.path, c.node.lineno,
                       f"the Rust binding constructs {cname} with {calls[cname]} positional arguments, the dataclass takes {len(fields)}", c.node)
     ctx.stats["C12.R6 model dataclasses"] = n
+    n_enum = _enum_values(ctx, mm)
+    ctx.stats["C12.R6 enums read by value"] = n_enum
+
+
+MODRS = "hugr-model/src/v0/mod.rs"
+
+
+def _enum_members(c) -> dict[str, int | None]:
+    """member -> value of an Enum class body as the enum machinery computes it (literal ints; auto() = last + 1, first 1)"""
+    out: dict[str, int | None] = {}
+    last = 0
+    for st in c.node.body:
+        if isinstance(st, ast.Assign) and len(st.targets) == 1 and isinstance(st.targets[0], ast.Name):
+            v = st.value
+            if isinstance(v, ast.Constant) and isinstance(v.value, int) and not isinstance(v.value, bool):
+                val = v.value
+            elif isinstance(v, ast.Call) and u(v.func).split(".")[-1] == "auto" and not v.args:
+                val = last + 1
+            else:
+                out[st.targets[0].id] = None
+                continue
+            out[st.targets[0].id] = last = val
+    return out
+
+
+def _enum_values(ctx, mm) -> int:
+    """enums the Rust side reads through `.value`: value -> Rust variant (FromPyObject) and Rust variant -> Python member
+    (IntoPyObject) compose to member -> value, which the Python class must declare"""
+    p = ctx.root / MODRS
+    if not p.exists():
+        ctx.broken(f"anchor vanished: {MODRS}")
+    rs = p.read_text()
+    n = 0
+    for mt in re.finditer(r"impl<'py> pyo3::FromPyObject<'py> for (\w+) \{(.*?)\n\}\n", rs, re.S):
+        ty, body = mt.group(1), mt.group(2)
+        if 'getattr("value")' not in body:
+            continue
+        by_value = {v: int(k) for k, v in re.findall(r"(\d+) => Ok\(Self::(\w+)\)", body)}
+        into = re.search(r"impl<'py> pyo3::IntoPyObject<'py> for " + ty + r" \{(.*?)\n\}\n", rs, re.S)
+        if not by_value or into is None:
+            ctx.broken(f"{MODRS}: conversions of {ty} not recognised")
+        member = dict(re.findall(ty + r'::(\w+) => py_class\.getattr\("(\w+)"\)', into.group(1)))
+        cls_name = re.search(r'py_module\.getattr\("(\w+)"\)', into.group(1))
+        c = mm.classes.get(cls_name.group(1)) if cls_name else None
+        if cls_name and c is None:
+            ctx.note(f"{MODRS}: {ty} has no Python counterpart in hugr.model (never crosses the binding from Python)")
+            continue
+        if c is None or set(member) != set(by_value):
+            ctx.broken(f"{MODRS}: {ty}: Python class / variant table not recognised")
+        want = {member[v]: by_value[v] for v in by_value}
+        got = _enum_members(c)
+        n += 1
+        ctx.check(got == want, "C12.R6", f"hugr.model.{c.name}: member values", mm.path, c.node.lineno,
+                  f"the Rust binding reads `{c.name}.value` and maps {dict(sorted((k, v) for v, k in by_value.items()))}; it hands back the members "
+                  f"{member}: the Python enum must declare exactly {want}", c.node, expected=str(want), found=str(got), detail=str(got))
+    if n < 1:
+        ctx.broken(f"{MODRS}: no enum conversion through `.value` found (RegionKind expected)")
+    return n
 
 
 def r7_plumbing(ctx, m, me) -> None:
